@@ -47,6 +47,31 @@ def _mapbool(f, x):
     return f(x)
 
 
+def _vectorize_otypes(out):
+    """np.vectorize without otypes takes the output dtype from the FIRST output: when that is a Python / numpy integer (or bool), every
+    later output is cast to that integer type (truncation).  Modelled for symbolic later outputs by a fresh unknown within one unit."""
+    if not isinstance(out, real_np.ndarray) or out.size < 2: return out
+    flat = out.reshape(-1)
+    first = flat[0]
+    if isinstance(first, (bool, int, real_np.integer)) and not isinstance(first, SC):
+        C = core.CTX
+        for i in range(1, flat.size):
+            v = flat[i]
+            if isinstance(v, (bool, int, real_np.integer)) and not isinstance(v, SC): continue
+            if isinstance(v, SC) and v.p.is_const() and v.p.const_value().im == 0 and v.p.const_value().re.denominator == 1:
+                flat[i] = int(v.p.const_value().re); continue
+            if isinstance(v, float):
+                flat[i] = int(v); continue
+            if isinstance(v, SC):
+                if not C.is_real_poly(v.p): raise Inconclusive('np.vectorize: complex output cast to the integer type of the first output')
+                k = C.extra['vec_cast'] = C.extra.get('vec_cast', 0) + 1
+                a = C.atoms.new(f'int_cast{k}', real=True, unknown=True)
+                u = SC(Poly.atom(a))
+                C.facts.append(((u - v + 1).p, True)); C.facts.append(((v - u + 1).p, True))
+                flat[i] = u
+    return out
+
+
 class LinalgStub:
     LinAlgError = real_np.linalg.LinAlgError
 
@@ -241,7 +266,7 @@ class NPFacade:
         rv = real_np.vectorize(f, *a, **k)
         def g(t):
             if _is_sym(t): return f(t)
-            if _obj(t): return _map(f, t)
+            if _obj(t): return _vectorize_otypes(_map(f, t))
             return rv(t)
         return g
 
